@@ -186,6 +186,12 @@ Theorem C06_judge_sound_step : forall s o r ev s',
 Proof. exact step_okb_sound. Qed.
 Print Assumptions C06_judge_sound_step.
 
+(** ... and misses nothing: on a state whose per-entry fields are trivial
+    outside the entry array (every dump is), passing all clauses implies [Inv] *)
+Theorem C06_judge_complete_state : forall s, scoped s -> invb s = true -> Inv s.
+Proof. exact invb_complete. Qed.
+Print Assumptions C06_judge_complete_state.
+
 (** non-vacuity: the two witness histories are legal for the repaired code
     as well and run to completion (with evictions, ghost hits, a discard and
     shared in-flight use of buffers on the way) *)
